@@ -279,6 +279,10 @@ std::string doU8(const std::vector<std::string>& a) {
     const std::string& h2 = arg(a, 4);
     if (P.null) return "rerr invalid";
     if (h2 == "null") return "ok I:0 " + state(u);
+    if (h2 == "self") {   /* u.insert(p, u): the plugin passes the receiver's own storage */
+      size_t k = u.Insert((size_t)P.v, u.Data());
+      return "ok I:" + udec(k) + " " + state(u);
+    }
     utf8helper::UTF8String u1(hexdec(h2));
     size_t k = u.Insert((size_t)P.v, u1.Data());
     return "ok I:" + udec(k) + " " + state(u);
